@@ -126,8 +126,11 @@ OFFSETS = [None, "Z"] + list(range(-720, 841, 15))
 
 
 @st.composite
-def unit_cases(draw):
-    y = draw(st.integers(1700, 2200))
+def unit_cases(draw, early_epochs=True):
+    # (epochs before the Gregorian reform only with the proleptic Gregorian calendar, which is
+    # the calendar of Python's datetime - the reference - and emsarray's default)
+    y = draw(st.one_of(st.integers(1700, 2200), st.integers(1700, 2200), st.integers(1000, 1699))
+             if early_epochs else st.integers(1700, 2200))
     mo = draw(st.integers(1, 12))
     d = draw(st.integers(1, 28))
     return {
@@ -138,7 +141,8 @@ def unit_cases(draw):
         "offset": draw(st.sampled_from(OFFSETS)),
         "style": draw(st.sampled_from(["+HH:MM", "+HH:MM", "+HHMM", "+HH"])),
         "space": draw(st.booleans()),
-        "calendar": draw(st.sampled_from([None, None, "standard", "gregorian", "proleptic_gregorian"])),
+        "calendar": draw(st.sampled_from([None, None, "standard", "gregorian", "proleptic_gregorian"]
+                                         if y >= 1700 else [None, "proleptic_gregorian"])),
     }
 
 
@@ -164,7 +168,7 @@ def dataset_cases(draw, meshes_as_on_disk=False):
     conv = "ugrid" if meshes_as_on_disk else draw(st.sampled_from(list(S.ALL_CONVS) + ["ugrid", "ugrid"]))
     spec = {"conv": conv, "geom": draw(S.geometry(conv, max_n=3, max_j=2, max_i=3 if meshes_as_on_disk else 2,
                                                    allow_bowtie=False))}
-    u = draw(unit_cases())
+    u = draw(unit_cases(early_epochs=False))      # (time stamps are numpy datetime64[ns] here)
     u["calendar"] = None
     tname, tdim = c12.TIME_NAMES.get(conv, ("time", "time"))
     nt = draw(st.integers(1, 4))
